@@ -562,6 +562,39 @@ func c08Direct(c *fw.Ctx, pool []poolVal, seq []int, fi int, safe bool) {
 			c.Violation("function-mutates-argument:"+name, "%s changed argument %d", desc, i)
 		}
 	}
+	// the caller owns the result and overwrites it (unless it is one of the arguments, or an element of
+	// one, handed through): nothing the library keeps - the package-level variants.Empty, the value a
+	// later call of the same function returns - may change with it
+	if r != nil && pv == nil {
+		own := true
+		for _, a := range args {
+			if a == r {
+				own = false
+			}
+			if a != nil && a.Type() == variants.Array {
+				for _, e := range a.AsArray() {
+					if e == r {
+						own = false
+					}
+				}
+			}
+		}
+		if own {
+			fw.Try(func() { r.SetAsString("overwritten-by-the-caller") })
+			if variants.Empty == nil || variants.Empty.Type() != variants.Null {
+				c.Violation("result-is-the-shared-empty-variant:"+name, "%s returned the package-level variants.Empty: writing into the result changed it to %s", desc, variantStr(variants.Empty))
+				variants.Empty = variants.EmptyVariant()
+			} else if exp.kind == "value" || exp.kind == "check" {
+				var r2 *variants.Variant
+				var err2 error
+				args2, _ := c08Args(pool, seq)
+				pv2 := fw.Try(func() { r2, err2 = f.Calculate(args2, opsManager(safe)) })
+				if msg := c08Judge(c08Reference(name, safe, args2, time.Now()), r2, err2, pv2); msg != "" && name != "Rnd" && name != "Random" && name != "Now" && name != "Ticks" {
+					c.Violation("result-not-isolated:"+name, "%s called again after the caller overwrote the first result: %s", desc, msg)
+				}
+			}
+		}
+	}
 	if exp.kind != "open" {
 		c.Nontrivial()
 	}
@@ -662,9 +695,9 @@ func c08Spelling(c *fw.Ctx, i int64) {
 // function, setting and evaluating an expression that calls the name: the first registration wins every time
 
 var c08HistCalls = []struct{ name, expr, want string }{
-	{"Array", "Array(7,8,9)[1]", "1:8"},
-	{"Max", "Max(2,9,4)", "1:9"},
-	{"Abs", "Abs(-6) + 1", "1:7"},
+	{"Array", "Array(7,8,9)[1]", variantStr(variants.VariantFromInteger(8))},
+	{"Max", "Max(2,9,4)", variantStr(variants.VariantFromInteger(9))},
+	{"Abs", "Abs(-6) + 1", variantStr(variants.VariantFromInteger(7))},
 }
 
 var c08HistOps = []string{"add a namesake", "Remove(0)", "Evaluate", "SetExpression", "RemoveByName(Pi)"}
